@@ -7,9 +7,14 @@
 package exec
 
 import (
+	"bytes"
 	"context"
+	"encoding/gob"
+	"fmt"
+	"reflect"
 
 	"github.com/grailbio/base/retry"
+	"github.com/grailbio/bigslice"
 	"github.com/grailbio/bigslice/frame"
 	"github.com/grailbio/bigslice/slicefunc"
 	"github.com/grailbio/bigslice/sliceio"
@@ -67,3 +72,83 @@ func VerifSetRetryPolicy(p retry.Policy) retry.Policy {
 	retryPolicy = p
 	return old
 }
+
+// VerifInvocation wraps an execInvocation.
+type VerifInvocation struct{ inv execInvocation }
+
+// VerifMakeInvocation makes the invocation of fv applied to args, as
+// Session.run does.
+func VerifMakeInvocation(fv *bigslice.FuncValue, args ...interface{}) VerifInvocation {
+	return VerifInvocation{makeExecInvocation(fv.Invocation("verif", args...))}
+}
+
+// Index returns the invocation index.
+func (v VerifInvocation) Index() uint64 { return v.inv.Index }
+
+// Args returns the invocation's arguments.
+func (v VerifInvocation) Args() []interface{} { return v.inv.Args }
+
+// Compile invokes the invocation and compiles the resulting slice.
+func (v VerifInvocation) Compile(machineCombiners bool) ([]*Task, bigslice.Slice, error) {
+	slice := v.inv.Invoke()
+	tasks, err := compile(v.inv, slice, machineCombiners)
+	return tasks, slice, err
+}
+
+// Freeze freezes the compile environment (done by the driver before the
+// invocation is shipped).
+func (v *VerifInvocation) Freeze() { v.inv.Env.Freeze() }
+
+// Encode gob-encodes the invocation as the driver does for Worker.Compile:
+// *Result arguments are replaced by invocation references.
+func (v VerifInvocation) Encode() ([]byte, error) {
+	inv := v.inv
+	inv.Args = append([]interface{}{}, inv.Args...)
+	for i, arg := range inv.Args {
+		if result, ok := arg.(*Result); ok {
+			inv.Args[i] = invocationRef{result.invIndex}
+		}
+	}
+	var b bytes.Buffer
+	if err := gob.NewEncoder(&b).Encode(inv); err != nil {
+		return nil, err
+	}
+	return b.Bytes(), nil
+}
+
+// VerifDecodeInvocation decodes an invocation as worker.Compile does,
+// substituting invocation references by results (indexed by invocation).
+func VerifDecodeInvocation(p []byte, results map[uint64]*Result) (VerifInvocation, error) {
+	var inv execInvocation
+	if err := gob.NewDecoder(bytes.NewReader(p)).Decode(&inv); err != nil {
+		return VerifInvocation{}, err
+	}
+	for i, arg := range inv.Args {
+		ref, ok := arg.(invocationRef)
+		if !ok {
+			continue
+		}
+		r, ok := results[ref.Index]
+		if !ok {
+			return VerifInvocation{}, fmt.Errorf("invalid invocation reference %x", ref.Index)
+		}
+		inv.Args[i] = r
+	}
+	return VerifInvocation{inv}, nil
+}
+
+// VerifMakeResult makes a Result as worker.Compile does.
+func VerifMakeResult(slice bigslice.Slice, tasks []*Task, invIndex uint64) *Result {
+	return &Result{Slice: slice, tasks: tasks, invIndex: invIndex}
+}
+
+// VerifResultTasks returns the root tasks of a result.
+func VerifResultTasks(r *Result) []*Task { return r.tasks }
+
+// VerifIsDefaultPartitioner tells whether t uses the default partitioner.
+func VerifIsDefaultPartitioner(t *Task) bool {
+	return t.Partitioner == nil || reflect.ValueOf(t.Partitioner).Pointer() == reflect.ValueOf(defaultPartitioner).Pointer()
+}
+
+// VerifTaskState returns the task's current state.
+func VerifTaskState(t *Task) TaskState { return t.State() }
